@@ -6,6 +6,7 @@ import (
 	"encoding/hex"
 	"fmt"
 	"iter"
+	"math"
 	"math/bits"
 	"reflect"
 	"sort"
@@ -18,7 +19,8 @@ import (
 )
 
 var hooks = hookOK(&listz.SkipList[int, int]{}) && hookOK(&listz.SkipList[string, int]{}) &&
-	hookOK(&listz.SkipListWithCmp[int, int]{}) && hookOK(&listz.SkipListWithCmp[string, int]{})
+	hookOK(&listz.SkipListWithCmp[int, int]{}) && hookOK(&listz.SkipListWithCmp[string, int]{}) &&
+	hookOK(&listz.SkipList[float64, int]{}) && hookOK(&listz.SkipListWithCmp[*int, int]{}) && hookOK(&listz.SkipListWithCmp[pair, int]{})
 
 func init() {
 	note := "tower heights forced through the private rand field (reflect+unsafe); towers read back by reflection after every op"
@@ -28,7 +30,7 @@ func init() {
 	core.Register(&core.Prop{
 		ID:       "C02",
 		Title:    "SkipList and SkipListWithCmp behave as an ordered map",
-		Quick:    12000,
+		Quick:    10000,
 		Thorough: 120000,
 		Gen:      gen,
 		Corpus:   corpus,
@@ -52,7 +54,7 @@ func init() {
 			}
 			return len(c.Lines) > 6 && ((grow && rm) || !hooks)
 		},
-		Rule:     "op sequences (set/setnx/setx/get/getnode/setnode/rm/clear/init/len/head/keys/values/range/all/rfrom/rrange with early stop, walk/walkfrom through Head()/GetNode()+Next(), a node handle kept across operations: hold/held/heldset/heldwalk) on SkipList[int|string,int] (zero value and New) and SkipListWithCmp (natural, reverse, modular-then-value / length-then-bytes total orders, comparators answering with arbitrary magnitudes: a-b, 7(a-b), sign·(1+hash), byte difference; and the weak orders k>>1 / length-only that identify distinct keys) with forced tower heights; wave-4 stream `handles`: iter.Seq2 values from All() kept in slots (obtained on the zero value before the first Set, before Clear/Init/removals) and ranged afterwards fully / with early break and again / nested over themselves / by two alternating iter.Pull2 cursors; wave-3 streams: `large` (2 000–5 000 keys through bulk fill/rmrange with natural and forced-tall towers, removal desc/strided/asc, Clear+refill cycles, range bounds around every 1000th key, a node handle kept throughout; towers compared as chain lengths and validated in place), `history` (4–12 Clear/Init/drain+refill cycles with handles), `magnitude` (int64 extremes, strings of length 0/1/1000, rare random-source words 0, 1, 2^31, 2^32-1, 2^63 …); non-trivial = ≥ 6 ops with at least one top-level growth and one successful removal; distinct by hash of the op list",
+		Rule:     "op sequences (set/setnx/setx/get/getnode/setnode/rm/clear/init/len/head/keys/values/range/all/rfrom/rrange with early stop, walk/walkfrom through Head()/GetNode()+Next(), a node handle kept across operations: hold/held/heldset/heldwalk) on SkipList[int|string,int] (zero value and New) and SkipListWithCmp (natural, reverse, modular-then-value / length-then-bytes total orders, comparators answering with arbitrary magnitudes: a-b, 7(a-b), sign·(1+hash), byte difference; and the weak orders k>>1 / length-only that identify distinct keys) with forced tower heights; wave-6: key-type matrix (int, string, *int compared by dereferencing, float64 with -0/±Inf and without NaN, struct keys), case-insensitive and first-field comparators (stored representation required in every enumeration form), recording comparators (every comparator argument must be a key of the case), stream `multi` (2–4 lists used alternately, each judged on its own); wave-4 stream `handles`: iter.Seq2 values from All() kept in slots (obtained on the zero value before the first Set, before Clear/Init/removals) and ranged afterwards fully / with early break and again / nested over themselves / by two alternating iter.Pull2 cursors; wave-3 streams: `large` (2 000–5 000 keys through bulk fill/rmrange with natural and forced-tall towers, removal desc/strided/asc, Clear+refill cycles, range bounds around every 1000th key, a node handle kept throughout; towers compared as chain lengths and validated in place), `history` (4–12 Clear/Init/drain+refill cycles with handles), `magnitude` (int64 extremes, strings of length 0/1/1000, rare random-source words 0, 1, 2^31, 2^32-1, 2^63 …); non-trivial = ≥ 6 ops with at least one top-level growth and one successful removal; distinct by hash of the op list",
 		Classify: classify,
 		Facts:    facts,
 		Extras:   []core.Extra{{Name: "huge-lists-go-oracle", Run: extraHuge}},
@@ -60,7 +62,8 @@ func init() {
 		Assumptions: []string{
 			"Go int treated as unbounded (Len)",
 			"nodes are identified by their keys in the model (pointer splicing = list surgery per level); the reflection dump of every level after every op ties the two",
-			"typez.Ordered float keys (NaN) are excluded: not a total order",
+			"float64 keys are driven without NaN: `<`/`==` with NaN is not even a weak order (NaN == NaN is false: a NaN key can be Set but never found or removed) — outside the property's `total-order` clause; -0 and 0 are one binding (weak order), ±Inf ordinary keys",
+			"several lists are used alternately on ONE goroutine; concurrent use of one list is outside this sequential property",
 			"a zero-value SkipListWithCmp has no comparator and is not usable by design; the zero-value clause is about SkipList",
 			"a node handle is used only while its node is linked: Next() on a node that has been removed panics by construction (Remove sets its tower to nil) and is outside the ordered-map reading",
 			"a case stops calling the real code as soon as the reflected towers show pointer damage (cycle, node linked above its height, chain above level): the damaged state is reported, later operations answer `halted`",
@@ -138,6 +141,8 @@ func strCmp(name string) func(a, b string) int {
 		}
 	case "lenonly": // weak order: strings of the same length compare equal
 		return func(a, b string) int { return cmpInt(len(a), len(b)) }
+	case "fold": // case-insensitive (ASCII): "Banana" and "banana" are one binding, the stored spelling is reported
+		return func(a, b string) int { return strings.Compare(foldLower(a), foldLower(b)) }
 	case "bytesdiff": // the natural order; answers the difference of the first differing bytes / of the lengths
 		return func(a, b string) int {
 			for i := 0; i < len(a) && i < len(b); i++ {
@@ -164,6 +169,88 @@ func parseStr(t string) (string, bool) {
 	}
 	b, err := hex.DecodeString(t)
 	return string(b), err == nil
+}
+
+// ---- type matrix: *int keys (compared by dereferencing), float64 keys, struct keys
+
+func parsePtrKey(t string) (*int, bool) {
+	v, err := strconv.Atoi(t)
+	if err != nil {
+		return nil, false
+	}
+	return &v, true
+}
+
+func showPtr(p *int) string {
+	if p == nil {
+		return "<nil>"
+	}
+	return strconv.Itoa(*p)
+}
+
+// ptrCmp dereferences its arguments: the zero value of the key type (nil) must never reach it.
+func ptrCmp(name string) func(a, b *int) int {
+	f := intCmp(name)
+	if f == nil {
+		return nil
+	}
+	return func(a, b *int) int { return f(*a, *b) }
+}
+
+func parseF64(t string) (float64, bool) {
+	v, err := strconv.ParseFloat(t, 64)
+	return v, err == nil && v == v
+}
+
+func showF64(f float64) string {
+	switch {
+	case f == 0 && math.Signbit(f):
+		return "-0"
+	case math.IsInf(f, 1):
+		return "+Inf"
+	case math.IsInf(f, -1):
+		return "-Inf"
+	}
+	return strconv.FormatFloat(f, 'f', -1, 64)
+}
+
+type pair struct{ A, B int }
+
+func parsePair(t string) (pair, bool) {
+	a, b, ok := strings.Cut(t, ",")
+	x, err1 := strconv.Atoi(a)
+	y, err2 := strconv.Atoi(b)
+	return pair{x, y}, ok && err1 == nil && err2 == nil
+}
+
+func showPair(p pair) string { return strconv.Itoa(p.A) + "," + strconv.Itoa(p.B) }
+
+func pairCmp(name string) func(a, b pair) int {
+	lex := func(a, b pair) int {
+		if a.A != b.A {
+			return cmpInt(a.A, b.A)
+		}
+		return cmpInt(a.B, b.B)
+	}
+	switch name {
+	case "lex":
+		return lex
+	case "rev":
+		return func(a, b pair) int { return lex(b, a) }
+	case "first": // weak order: pairs with the same first field are one binding
+		return func(a, b pair) int { return cmpInt(a.A, b.A) }
+	}
+	return nil
+}
+
+func foldLower(s string) string {
+	b := []byte(s)
+	for i, c := range b {
+		if 'A' <= c && c <= 'Z' {
+			b[i] = c + 32
+		}
+	}
+	return string(b)
 }
 
 func parseIntKey(t string) (int, bool) {
@@ -481,11 +568,72 @@ func genHandles(r *core.Rand, tier string) core.Case {
 	return core.Case{Lines: lines, Tag: "handles"}
 }
 
+var f64Keys = []string{"-0", "0", "-0", "0", "0.5", "-0.5", "1.5", "-1.5", "2.5", "+Inf", "-Inf"}
+
+// the same words in several spellings: under the case-insensitive order they are one binding each
+var foldKeys = []string{"banana", "Banana", "BANANA", "apple", "Apple", "aPPle", "cherry", "CHERRY", "", "a", "A", "b", "B", "z", "Z", "az", "Az", "aZ"}
+
+// genMulti: 2–4 independent lists of the same type used alternately on one goroutine; each is
+// judged against its own model (no state may leak between objects of the package).
+func genMulti(r *core.Rand, tier string) core.Case {
+	kind := []string{"zero", "new", "cmp", "cmp"}[r.Intn(4)]
+	kt, cmp := "int", "nat"
+	if kind == "cmp" {
+		cmp = []string{"nat", "rev", "half", "sgnhash"}[r.Intn(4)]
+		if r.Chance(30) {
+			kt = "ptr"
+		}
+	}
+	lines := []string{fmt.Sprintf("@ C02 %s %s %s %s", kind, kt, cmp, dumpFlag())}
+	nobj := r.Range(2, 4)
+	val := 100
+	for i, n := 0, r.Range(10, 60); i < n; i++ {
+		if r.Chance(45) {
+			lines = append(lines, fmt.Sprintf("obj %d", r.Intn(nobj)))
+		}
+		val++
+		k := r.Range(0, 8)
+		switch r.Pick(30, 12, 6, 6, 4, 4, 4, 3, 2, 2) {
+		case 0:
+			h := r.Range(1, 5)
+			if r.Chance(10) {
+				h = r.Range(6, 32)
+			}
+			lines = append(lines, fmt.Sprintf("set %d %d %d", k, val, wordFor(r, h)))
+		case 1:
+			lines = append(lines, fmt.Sprintf("rm %d", k))
+		case 2:
+			lines = append(lines, fmt.Sprintf("get %d", k))
+		case 3:
+			lines = append(lines, "keys")
+		case 4:
+			lines = append(lines, fmt.Sprintf("rfrom %d 0", k))
+		case 5:
+			lines = append(lines, "all 0")
+		case 6:
+			lines = append(lines, fmt.Sprintf("hold %d", k), "held")
+		case 7:
+			lines = append(lines, "clear")
+		case 8:
+			lines = append(lines, "seq 0", "seqrange 0 0")
+		case 9:
+			lines = append(lines, "len", "head")
+		}
+	}
+	for k := 0; k < nobj; k++ {
+		lines = append(lines, fmt.Sprintf("obj %d", k), "keys", "len")
+	}
+	return core.Case{Lines: lines, Tag: "multi"}
+}
+
 func gen(r *core.Rand, tier string) core.Case {
+	if r.Chance(3) {
+		return genMulti(r, tier)
+	}
 	if r.Chance(6) {
 		return genHandles(r, tier)
 	}
-	// wave-4 stream `handles`: iter.Seq2 values from All() kept in slots (obtained on the zero value before the first Set, before Clear/Init/removals) and ranged afterwards fully / with early break and again / nested over themselves / by two alternating iter.Pull2 cursors; wave-3 streams: a light share in quick, a larger one in thorough (and on anchor drift,
+	// wave-6: key-type matrix (int, string, *int compared by dereferencing, float64 with -0/±Inf and without NaN, struct keys), case-insensitive and first-field comparators (stored representation required in every enumeration form), recording comparators (every comparator argument must be a key of the case), stream `multi` (2–4 lists used alternately, each judged on its own); wave-4 stream `handles`: iter.Seq2 values from All() kept in slots (obtained on the zero value before the first Set, before Clear/Init/removals) and ranged afterwards fully / with early break and again / nested over themselves / by two alternating iter.Pull2 cursors; wave-3 streams: a light share in quick, a larger one in thorough (and on anchor drift,
 	// when core asks for the thorough generator)
 	share := 1 // per mille of `large`
 	if tier == "thorough" {
@@ -504,19 +652,43 @@ func gen(r *core.Rand, tier string) core.Case {
 	if r.Chance(30) {
 		kt = "str"
 	}
+	// type matrix: *int keys compared by dereferencing and struct keys (SkipListWithCmp), float64 keys (SkipList)
+	if r.Chance(22) {
+		if kind == "cmp" {
+			kt = []string{"ptr", "pair"}[r.Intn(2)]
+		} else {
+			kt = "f64"
+		}
+	}
 	cmp := "nat"
 	if kind == "cmp" {
-		if kt == "int" {
+		switch kt {
+		case "int":
 			cmp = []string{"nat", "rev", "mod3", "mod3", "half", "half", "diff", "scaled", "sgnhash", "halfdiff"}[r.Intn(10)]
-		} else {
-			cmp = []string{"nat", "rev", "len", "lenonly", "bytesdiff", "bytesdiff"}[r.Intn(6)]
+		case "ptr":
+			cmp = []string{"nat", "rev", "mod3", "half", "sgnhash", "diff"}[r.Intn(6)]
+		case "pair":
+			cmp = []string{"lex", "first", "first", "rev"}[r.Intn(4)]
+		default:
+			cmp = []string{"nat", "rev", "len", "lenonly", "bytesdiff", "bytesdiff", "fold", "fold"}[r.Intn(8)]
 		}
 	}
 	lines := []string{fmt.Sprintf("@ C02 %s %s %s %s", kind, kt, cmp, dumpFlag())}
 	span := r.Range(4, 16)
 	key := func() string {
-		if kt == "int" {
+		switch kt {
+		case "int", "ptr":
 			return strconv.Itoa(r.Range(-2, span))
+		case "f64":
+			if r.Chance(45) {
+				return f64Keys[r.Intn(len(f64Keys))]
+			}
+			return strconv.Itoa(r.Range(-2, span))
+		case "pair":
+			return fmt.Sprintf("%d,%d", r.Range(0, min(span, 6)), r.Range(0, 3))
+		}
+		if cmp == "fold" {
+			return showStr(foldKeys[r.Intn(len(foldKeys))])
 		}
 		return showStr(strKeys[r.Intn(min(len(strKeys), span))])
 	}
@@ -668,6 +840,13 @@ func corpus() []core.Case {
 		core.Case{Lines: []string{"@ C02 cmp int rev " + dumpFlag(), "set 1 1 0", "set 2 2 1073741824", "set 3 3 0", "seq 0", "seqnest 0 3", "pull2 0 0", "seqtwice 0 2", "seqrange 0 0", "init", "seqrange 0 0", "set 9 9 0", "seqnest 0 1", "pull2 0 2"}, Tag: "corpus-handles"},
 		// re-configuration: Init with another comparator (ascending -> descending -> key-identifying)
 		core.Case{Lines: []string{"@ C02 cmp int nat " + dumpFlag(), "set 1 1 0", "set 2 2 1073741824", "set 3 3 0", "seq 0", "keys", "initcmp rev", "len", "set 1 1 0", "set 2 2 1073741824", "set 3 3 0", "keys", "rfrom 2 0", "rrange 3 1 0", "seqrange 0 0", "initcmp half", "set 4 4 0", "set 5 5 0", "keys", "seqrange 0 0"}, Tag: "corpus-reconfig"},
+		// representation-sensitive: under a case-insensitive order the STORED spelling is what every form reports
+		core.Case{Lines: []string{"@ C02 cmp str fold " + dumpFlag(), "set 42616e616e61 1 0", "set 6170706c65 2 1073741824", "rfrom 62616e616e61 0", "rrange 62414e414e41 7a 0", "getnode 62616e616e61", "setx 42414e414e41 5 0", "keys", "all 0", "range 0", "walk", "rfrom 4150504c45 1", "rm 62616e616e61", "keys"}, Tag: "corpus-types"},
+		// *int keys compared by dereferencing: the nil key of the head sentinel must never reach the comparator
+		core.Case{Lines: []string{"@ C02 cmp ptr nat " + dumpFlag(), "getnode 3", "get 3", "set 3 1 0", "set 5 2 1073741824", "getnode 1", "getnode 3", "getnode 4", "getnode 9", "rm 1", "rfrom 0 0", "rrange 0 9 0", "setx 0 1 0", "keys"}, Tag: "corpus-types"},
+		// float64 keys: -0 and 0 are one binding (stored spelling kept), ±Inf are ordinary keys; struct keys
+		core.Case{Lines: []string{"@ C02 new f64 nat " + dumpFlag(), "set -0 1 0", "set 0 2 0", "keys", "get 0", "getnode 0", "set +Inf 3 0", "set -Inf 4 1073741824", "set 2.5 5 0", "set -0.5 6 0", "keys", "rfrom 0 0", "rrange -Inf +Inf 0", "rm 0", "keys", "head"}, Tag: "corpus-types"},
+		core.Case{Lines: []string{"@ C02 cmp pair first " + dumpFlag(), "set 1,2 1 0", "set 1,3 2 0", "set 0,9 3 1073741824", "keys", "rfrom 1,0 0", "getnode 1,7", "rm 1,1", "keys"}, Tag: "corpus-types"},
 		// node handles: traversal by Next(), a handle kept across inserts/removals of other keys
 		core.Case{Lines: []string{"@ C02 new int nat " + dumpFlag(), "walk", "set 5 1 536870912", "set 3 2 1073741824", "set 8 3 0", "walk", "walkfrom 5", "walkfrom 4", "hold 5", "rm 3", "set 6 4 1", "set 9 5 0", "held", "heldwalk", "heldset 42", "get 5", "rm 8", "heldwalk", "rm 5", "held", "heldwalk", "hold 1", "held"}, Tag: "corpus"},
 	)
@@ -681,6 +860,7 @@ type runner interface {
 	dump() string
 	lazyMismatch() bool
 	isHalted() bool
+	abuse() string
 }
 
 type run[K any] struct {
@@ -696,12 +876,61 @@ type run[K any] struct {
 	mismatch  bool                        // the unforced height of the lazy-init insert differs from what the line asks for
 	structBad string
 	ids       *idTable             // node objects numbered in allocation order (dump mode)
+	known     map[string]bool      // every key that was an argument of an operation of this case
+	cmpBad    string               // the user comparator was handed a value that is not such a key
 	halted    bool                 // the reflected towers are damaged: no further call into the real code
 	held      *nodeView[K]         // node handle kept by `hold`
 	seqs      [4]iter.Seq2[K, int] // iter.Seq2 values kept by `seq k`
 }
 
 func (r *run[K]) isHalted() bool { return r.halted }
+
+func (r *run[K]) abuse() string { return r.cmpBad }
+
+// record wraps the user comparator: the list may only ever compare real keys (arguments of the
+// calls made so far) — never the zero-value key of its head sentinel.
+func (r *run[K]) record(f func(K, K) int) func(K, K) int {
+	return func(a, b K) int {
+		for _, k := range []K{a, b} {
+			if t := r.show(k); !r.known[t] && r.cmpBad == "" {
+				r.cmpBad = t
+			}
+		}
+		if r.cmpBad != "" && isNilKey(a, b) {
+			return 0 // do not dereference: the abuse is already recorded
+		}
+		return f(a, b)
+	}
+}
+
+func isNilKey(ks ...any) bool {
+	for _, k := range ks {
+		if p, ok := k.(*int); ok && p == nil {
+			return true
+		}
+	}
+	return false
+}
+
+// learn wraps the key parser: parsed keys become known keys.
+func (r *run[K]) learn() {
+	base := r.parse
+	r.known = map[string]bool{}
+	r.parse = func(t string) (K, bool) {
+		k, ok := base(t)
+		if ok {
+			r.known[r.show(k)] = true
+		}
+		return k, ok
+	}
+	if of := r.ofInt; of != nil {
+		r.ofInt = func(i int) K {
+			k := of(i)
+			r.known[r.show(k)] = true
+			return k
+		}
+	}
+}
 
 func (r *run[K]) lazyMismatch() bool { return r.mismatch }
 
@@ -1138,7 +1367,7 @@ func (r *run[K]) step(t []string) string {
 			return "bad-op"
 		}
 		r.held = nil
-		l.initWith(f)
+		l.initWith(r.record(f))
 		if r.dumpOn {
 			install(l.ptr, r.src)
 		}
@@ -1255,6 +1484,7 @@ func newRunner(hdr []string) runner {
 	case "int":
 		r := &run[int]{ids: newIDTable(), src: src, parse: parseIntKey, show: strconv.Itoa, dumpOn: dumpOn, vdump: vdump, ofInt: func(i int) int { return i }, cmpTable: intCmp,
 			showRV: func(v reflect.Value) string { return strconv.FormatInt(v.Int(), 10) }}
+		r.learn()
 		switch kind {
 		case "zero":
 			if cmp != "nat" {
@@ -1271,6 +1501,7 @@ func newRunner(hdr []string) runner {
 			if f == nil {
 				return nil
 			}
+			f = r.record(f)
 			r.l = wrapCmp(listz.NewSkipListWithCmp[int, int](f), f)
 		default:
 			return nil
@@ -1280,6 +1511,7 @@ func newRunner(hdr []string) runner {
 	case "str":
 		r := &run[string]{ids: newIDTable(), src: src, parse: parseStr, show: showStr, dumpOn: dumpOn, vdump: vdump, cmpTable: strCmp,
 			showRV: func(v reflect.Value) string { return showStr(v.String()) }}
+		r.learn()
 		switch kind {
 		case "zero":
 			if cmp != "nat" {
@@ -1296,10 +1528,64 @@ func newRunner(hdr []string) runner {
 			if f == nil {
 				return nil
 			}
+			f = r.record(f)
 			r.l = wrapCmp(listz.NewSkipListWithCmp[string, int](f), f)
 		default:
 			return nil
 		}
+		finish(r.l.ptr)
+		return r
+	case "ptr": // *int keys compared by dereferencing (SkipListWithCmp only)
+		if kind != "cmp" {
+			return nil
+		}
+		r := &run[*int]{ids: newIDTable(), src: src, parse: parsePtrKey, show: showPtr, dumpOn: dumpOn, vdump: vdump,
+			ofInt: func(i int) *int { return &i }, cmpTable: ptrCmp,
+			showRV: func(v reflect.Value) string {
+				if v.IsNil() {
+					return "<nil>"
+				}
+				return strconv.FormatInt(v.Elem().Int(), 10)
+			}}
+		r.learn()
+		f := ptrCmp(cmp)
+		if f == nil {
+			return nil
+		}
+		f = r.record(f)
+		r.l = wrapCmp(listz.NewSkipListWithCmp[*int, int](f), f)
+		finish(r.l.ptr)
+		return r
+	case "f64": // float64 keys of SkipList (built-in order; NaN excluded, -0 and 0 compare equal)
+		if cmp != "nat" || (kind != "zero" && kind != "new") {
+			return nil
+		}
+		r := &run[float64]{ids: newIDTable(), src: src, parse: parseF64, show: showF64, dumpOn: dumpOn, vdump: vdump,
+			ofInt:  func(i int) float64 { return float64(i) },
+			showRV: func(v reflect.Value) string { return showF64(v.Float()) }}
+		r.learn()
+		if kind == "zero" {
+			r.l = wrapOrd(&listz.SkipList[float64, int]{})
+		} else {
+			r.l = wrapOrd(listz.NewSkipList[float64, int]())
+		}
+		finish(r.l.ptr)
+		return r
+	case "pair": // struct keys through SkipListWithCmp
+		if kind != "cmp" {
+			return nil
+		}
+		r := &run[pair]{ids: newIDTable(), src: src, parse: parsePair, show: showPair, dumpOn: dumpOn, vdump: vdump, cmpTable: pairCmp,
+			showRV: func(v reflect.Value) string {
+				return strconv.FormatInt(v.Field(0).Int(), 10) + "," + strconv.FormatInt(v.Field(1).Int(), 10)
+			}}
+		r.learn()
+		f := pairCmp(cmp)
+		if f == nil {
+			return nil
+		}
+		f = r.record(f)
+		r.l = wrapCmp(listz.NewSkipListWithCmp[pair, int](f), f)
 		finish(r.l.ptr)
 		return r
 	}
@@ -1311,20 +1597,36 @@ func impl(c core.Case) []string {
 	// The first insert into a zero value draws its height from the time-seeded source
 	// lazyInit has just created (1 or 2, capped by level+1): rerun until it is the height
 	// the line asks for, so that the case stays a function of its lines.
-	for attempt := 0; attempt < 200; attempt++ {
-		var r runner
+	for attempt := 0; attempt < 400; attempt++ {
+		// four independent lists per case (`obj k` switches); all created by the header
+		var rs [4]runner
+		cur := 0
 		out = core.RunOps(c,
 			func(hdr []string) string {
-				r = newRunner(hdr)
-				if r == nil {
+				for k := range rs {
+					rs[k] = newRunner(hdr)
+				}
+				if rs[0] == nil {
 					return "bad-op"
 				}
-				return "ok" + r.dump()
+				return "ok" + rs[0].dump()
 			},
 			func(t []string) string {
-				if r == nil {
+				if rs[0] == nil {
 					return "bad-op"
 				}
+				if len(t) > 0 && t[0] == "obj" {
+					if len(t) != 2 {
+						return "bad-op"
+					}
+					k, err := strconv.Atoi(t[1])
+					if err != nil || k < 0 || k > 3 || strings.HasPrefix(t[1], "+") || strings.HasPrefix(t[1], "-") {
+						return "bad-op"
+					}
+					cur = k
+					return "ok"
+				}
+				r := rs[cur]
 				if r.isHalted() {
 					return "halted"
 				}
@@ -1332,9 +1634,16 @@ func impl(c core.Case) []string {
 				if res == "bad-op" {
 					return res
 				}
+				if a := r.abuse(); a != "" {
+					return "comparator-abuse: the comparator was called with " + a + ", which is not a key of this case"
+				}
 				return res + r.dump()
 			})
-		if r == nil || !r.lazyMismatch() {
+		mism := false
+		for _, r := range rs {
+			mism = mism || (r != nil && r.lazyMismatch())
+		}
+		if !mism {
 			return out
 		}
 	}
@@ -1360,35 +1669,63 @@ func dumpLevel(o string) int {
 
 // check evaluates the property on the implementation's answers against a Go map plus
 // sort under the case's comparator, and the structural clauses on the reflected towers.
+// check judges every list of the case against its own sorted-map reference: the lines of each
+// object (`obj k` switches) are checked as a case of their own.
 func check(c core.Case, out []string) *core.Failure {
+	multi := false
+	for _, l := range c.Lines[1:] {
+		if strings.HasPrefix(l, "obj") {
+			multi = true
+			break
+		}
+	}
+	if !multi || len(out) != len(c.Lines) {
+		return checkOne(c, out)
+	}
+	var sub [4]core.Case
+	var subOut [4][]string
+	var pos [4][]int
+	for k := range sub {
+		sub[k].Lines = []string{c.Lines[0]}
+		pos[k] = []int{0}
+		if k == 0 {
+			subOut[k] = []string{out[0]}
+		} else {
+			subOut[k] = []string{"ok"}
+		}
+	}
+	cur := 0
+	for i := 1; i < len(c.Lines); i++ {
+		t := core.Toks(c.Lines[i])
+		if len(t) > 0 && t[0] == "obj" {
+			if out[i] == "ok" && len(t) == 2 {
+				cur, _ = strconv.Atoi(t[1])
+			} else if out[i] != "bad-op" && out[i] != "dead" {
+				return &core.Failure{Key: "obj-switch", Desc: fmt.Sprintf("op %d %q answered %q", i, c.Lines[i], out[i])}
+			}
+			continue
+		}
+		sub[cur].Lines = append(sub[cur].Lines, c.Lines[i])
+		subOut[cur] = append(subOut[cur], out[i])
+		pos[cur] = append(pos[cur], i)
+	}
+	for k := range sub {
+		if f := checkOne(sub[k], subOut[k]); f != nil {
+			f.Desc = fmt.Sprintf("list %d of the case (its own lines: %q): %s", k, sub[k].Lines[1:], f.Desc)
+			return f
+		}
+	}
+	return nil
+}
+
+func checkOne(c core.Case, out []string) *core.Failure {
 	hdr := core.Toks(c.Lines[0])
 	if len(hdr) != 6 {
 		return nil
 	}
 	kind, kt, cmpName := hdr[2], hdr[3], hdr[4]
-	var cmp func(a, b string) int // on protocol tokens
-	switch kt {
-	case "int":
-		f := intCmp(cmpName)
-		if f == nil {
-			return nil
-		}
-		cmp = func(a, b string) int {
-			x, _ := strconv.Atoi(a)
-			y, _ := strconv.Atoi(b)
-			return f(x, y)
-		}
-	case "str":
-		f := strCmp(cmpName)
-		if f == nil {
-			return nil
-		}
-		cmp = func(a, b string) int {
-			x, _ := parseStr(a)
-			y, _ := parseStr(b)
-			return f(x, y)
-		}
-	default:
+	cmp := tokenCmp(kt, cmpName) // on protocol tokens
+	if cmp == nil {
 		return nil
 	}
 	// The reference: bindings keyed by comparator-equivalence class. A key that compares equal
@@ -1400,7 +1737,7 @@ func check(c core.Case, out []string) *core.Failure {
 	}
 	var ref []ent
 	// total orders: a key is its own class, look it up by token; weak orders: linear search
-	weak := cmpName == "half" || cmpName == "halfdiff" || cmpName == "lenonly"
+	weak := isWeak(kt, cmpName)
 	idx := map[string]int{}
 	find := func(k string) int {
 		if !weak {
@@ -1510,6 +1847,9 @@ func check(c core.Case, out []string) *core.Failure {
 		}
 		if res == "panic" {
 			return fail("panic-"+core.Toks(c.Lines[i])[0], "no panic")
+		}
+		if strings.HasPrefix(res, "comparator-abuse") {
+			return &core.Failure{Key: "comparator-argument", Desc: fmt.Sprintf("op %d %q: %s (the list compared something that is not a key: the zero-value key of its head sentinel?)", i, c.Lines[i], res)}
 		}
 		if i > 0 {
 			t := core.Toks(c.Lines[i])
@@ -1663,22 +2003,8 @@ func check(c core.Case, out []string) *core.Failure {
 			case "initcmp":
 				// Init with another comparator: everything is reset, the new order rules from now on
 				cmpName = t[1]
-				if kt == "int" {
-					f := intCmp(cmpName)
-					cmp = func(a, b string) int {
-						x, _ := strconv.Atoi(a)
-						y, _ := strconv.Atoi(b)
-						return f(x, y)
-					}
-				} else {
-					f := strCmp(cmpName)
-					cmp = func(a, b string) int {
-						x, _ := parseStr(a)
-						y, _ := parseStr(b)
-						return f(x, y)
-					}
-				}
-				weak = cmpName == "half" || cmpName == "halfdiff" || cmpName == "lenonly"
+				cmp = tokenCmp(kt, cmpName)
+				weak = isWeak(kt, cmpName)
 				ref, idx, dirty = nil, map[string]int{}, true
 				hasHeld = false
 				want = "ok"
@@ -1738,6 +2064,62 @@ func check(c core.Case, out []string) *core.Failure {
 		}
 	}
 	return nil
+}
+
+// tokenCmp is the case's order on protocol tokens (the independent oracle's own comparator).
+func tokenCmp(kt, name string) func(a, b string) int {
+	switch kt {
+	case "int", "ptr":
+		f := intCmp(name)
+		if f == nil {
+			return nil
+		}
+		return func(a, b string) int {
+			x, _ := strconv.Atoi(a)
+			y, _ := strconv.Atoi(b)
+			return f(x, y)
+		}
+	case "str":
+		f := strCmp(name)
+		if f == nil {
+			return nil
+		}
+		return func(a, b string) int {
+			x, _ := parseStr(a)
+			y, _ := parseStr(b)
+			return f(x, y)
+		}
+	case "f64":
+		if name != "nat" {
+			return nil
+		}
+		return func(a, b string) int {
+			x, _ := parseF64(a)
+			y, _ := parseF64(b)
+			switch {
+			case x < y:
+				return -1
+			case x > y:
+				return 1
+			}
+			return 0 // incl. -0 against 0
+		}
+	case "pair":
+		f := pairCmp(name)
+		if f == nil {
+			return nil
+		}
+		return func(a, b string) int {
+			x, _ := parsePair(a)
+			y, _ := parsePair(b)
+			return f(x, y)
+		}
+	}
+	return nil
+}
+
+func isWeak(kt, name string) bool {
+	return kt == "f64" || name == "half" || name == "halfdiff" || name == "lenonly" || name == "fold" || name == "first"
 }
 
 func checkTowers(dump string, keys []string, initialised bool, cmp func(a, b string) int) string {
